@@ -34,6 +34,15 @@ def run_batch(ctx, n, with_model=True):
             for v in (1, 1.0, True, 0, 0.0, False):
                 envs.append(dict(envs[0], **{prog.splitters[0]: v}))
         cases.append((prog, text, envs))
+    # corpus: literals that are not in Unicode NFC form (combining marks, compatibility characters) stay as written
+    for salt, label, operand in (("cafe\u0301", "Jose\u0301", "\u212b"), ("\u2126", "e\u0301\u0323", "\u1112\u1161\u11ab"), ("ok", "\ufb01", "A\u030a")):
+        p = gen.Program("nfc", gen.lit_str(salt, quote='"'), ["u"],
+                        ("if", ("cmp", ("id", "x"), "==", ("lit", gen.lit_str(operand, quote='"'))),
+                         ("ret", [(gen.lit_str(label, quote='"'), "1"), (gen.lit_str("b", quote='"'), "1")]),
+                         ("else", ("ret", [(gen.lit_str("n", quote='"'), "1")]))), {"u": "any", "x": "str"})
+        import unicodedata
+        envs = [{"u": i, "x": operand} for i in range(6)] + [{"u": 1, "x": unicodedata.normalize("NFC", operand)}]
+        cases.append((p, gen.render(p), envs))
     models = [None] * len(cases)
     if with_model and ctx.driver_ok:
         try:
